@@ -69,8 +69,13 @@ func (s *Scheduler) Schedule(g *ExecutionGraph) error {
 				continue
 			}
 
+			// a pipeline included by several stages is scheduled by several loops at once:
+			// only the loop that moves the stage from waiting to running starts it
+			if !atomic.CompareAndSwapInt32(&stage.Status, StatusWaiting, StatusRunning) {
+				continue
+			}
+
 			wg.Add(1)
-			stage.UpdateStatus(StatusRunning)
 			go func(stage *Stage) {
 				defer func() {
 					stage.End = time.Now()
